@@ -23,9 +23,11 @@ RULE = ('random skeletons (any ids incl. > 2^32, forests, fractional-nm units) a
         'radius; single file, folder, zip) compared byte for byte with the Coq encoder, decoded by the Coq decoder and by navis; every '
         'truncation point of small files and garbage bytes; batch reads with random subsets of corrupt files under errors=raise/log/ignore; '
         'NRRD (voxels incl. anisotropic units, dotprops), JSON, HDF5 and mesh files round-tripped. '
+        'BaseReader.parse_filename against model/Fmt.v on random fmt patterns (literal runs with regex-special characters; named, typed, multi-name and ignored fields; malformed type annotations) x file names (rendered from values, separators inside values, garbage around, unrelated, directory prefixes, values that do not convert). '
         'non-trivial = at least one edge and ids not equal to row indices; distinct = distinct (data, options).')
 ASSUMPTIONS = ['float32 values are opaque 32-bit words for the model (struct.pack in the harness)',
-               'pynrrd, h5py, json and trimesh containers are not modelled: those formats are covered by differential round trips only']
+               'pynrrd, h5py, json and trimesh containers are not modelled: those formats are covered by differential round trips only',
+               'fmt model: field bodies with regex-special characters or blanks, nested braces, exponent / inf / nan / non-ASCII number spellings and paths ending in a slash or dot component are outside the generator (model/Fmt.v header)']
 
 
 def f32words(a):
@@ -37,6 +39,8 @@ def run(ctx):
     navis.set_loggers('ERROR')
     navis.set_pbars(hide=True)
     rng = ctx.rng
+    from checks import fmtparse
+    fmtparse.run(ctx, ctx.n(500, 8000), 'C14fmt')
     tmp = tempfile.mkdtemp(prefix='c14_', dir=os.path.join(coqio.VERIF, '.work'))
     exprs, follow = [], []
     try:
